@@ -35,6 +35,10 @@ pub struct Decision {
     pub chosen: usize,
     /// true iff the thread that was running is still enabled (switching away is a pre-emption)
     pub running_enabled: bool,
+    /// true iff this decision follows a yield of the running thread (polling loop): deviating from the default
+    /// here is free of pre-emption cost but is charged to a separate budget, otherwise unfair schedules that
+    /// starve a runnable thread forever would make the space infinite
+    pub after_yield: bool,
 }
 
 #[derive(Clone, Copy, Debug, PartialEq)]
@@ -55,6 +59,8 @@ struct Inner {
     last_yield_fp: Vec<Option<u64>>,
     same_fp_yields: Vec<u32>,
     at_yield: Vec<bool>,
+    last_run: Vec<u64>,
+    clock: u64,
     current: Option<usize>,
     prefix: Vec<usize>,
     trace: Vec<Decision>,
@@ -182,11 +188,13 @@ impl Exec {
                 running_enabled = true;
             }
         }
-        for t in 0..g.n {
-            if Some(t) != running && g.status[t] == Status::Parked && !g.yield_blocked[t] {
-                v.push(t);
-            }
+        let mut others: Vec<usize> = (0..g.n).filter(|&t| Some(t) != running && g.status[t] == Status::Parked && !g.yield_blocked[t]).collect();
+        if !running_enabled {
+            // the running thread yielded or finished: fair default — the thread that has not run for the longest
+            // time comes first (otherwise two pollers could starve a third thread forever)
+            others.sort_by_key(|&t| (g.last_run[t], t));
         }
+        v.extend(others);
         (v, running_enabled)
     }
 
@@ -211,7 +219,11 @@ impl Exec {
             0
         };
         let t = enabled[chosen];
-        g.trace.push(Decision { enabled, chosen, running_enabled });
+        let after_yield = match running {
+            Some(r) => !running_enabled && g.at_yield[r] && g.status[r] == Status::Parked,
+            None => false,
+        };
+        g.trace.push(Decision { enabled, chosen, running_enabled, after_yield });
         Some(t)
     }
 
@@ -280,6 +292,8 @@ impl Exec {
         }
         g.events.push(ev);
         g.per_thread_events[tid] += 1;
+        g.clock += 1;
+        g.last_run[tid] = g.clock;
         if g.events.len() > g.max_events && !g.abort {
             g.machinery = Some(format!("execution exceeded {} events (unbounded loop?)", g.max_events));
             g.abort = true;
@@ -342,7 +356,7 @@ impl Exec {
                 // lift its own block (a lone poller keeps polling)
                 g.yield_blocked[tid] = false;
                 g.status[tid] = Status::Running;
-                g.trace.push(Decision { enabled: vec![tid], chosen: 0, running_enabled: true });
+                g.trace.push(Decision { enabled: vec![tid], chosen: 0, running_enabled: true, after_yield: false });
             }
         }
         if g.abort {
@@ -495,6 +509,9 @@ impl ExecResult {
     pub fn preemptions_before(&self, i: usize) -> usize {
         self.trace[..i].iter().filter(|d| d.running_enabled && d.chosen != 0).count()
     }
+    pub fn yield_deviations_before(&self, i: usize) -> usize {
+        self.trace[..i].iter().filter(|d| d.after_yield && d.chosen != 0).count()
+    }
 }
 
 pub trait SchedSpec {
@@ -533,6 +550,8 @@ pub fn run_one<S: SchedSpec>(spec: &S, prefix: &[usize]) -> ExecResult {
             last_yield_fp: vec![None; n],
             same_fp_yields: vec![0; n],
             at_yield: vec![false; n],
+            last_run: vec![0; n],
+            clock: 0,
             current: None,
             prefix: prefix.to_vec(),
             trace: Vec::new(),
@@ -721,7 +740,7 @@ impl<S: SchedSpec> Subject for Sched<S> {
     fn explore(&self, ctx: &mut Ctx) {
         let name = self.name();
         let bound = self.0.bound(ctx.tier);
-        ctx.stats(&name).bound = format!("{}; pre-emption bound {} (iterative context bounding, all bounds below it included)", self.0.describe(ctx.tier), bound);
+        ctx.stats(&name).bound = format!("{}; pre-emption bound {} (iterative context bounding, all bounds below it included; deviations from the default thread after a polling-loop yield are bounded by the same number)", self.0.describe(ctx.tier), bound);
         // stack of prefixes to explore; sharding by the index of the first-level alternative
         let mut stack: Vec<Vec<usize>> = vec![Vec::new()];
         let mut first = true;
@@ -744,6 +763,9 @@ impl<S: SchedSpec> Subject for Sched<S> {
                 }
                 continue;
             }
+            if std::env::var("ZV_DEBUG").is_ok() && r.trace.len() > 200 {
+                eprintln!("LONG execution: {} decisions, prefix {:?}, stuck={}", r.trace.len(), prefix, r.stuck);
+            }
             let root = first;
             first = false;
             // children
@@ -755,6 +777,13 @@ impl<S: SchedSpec> Subject for Sched<S> {
                     cost += 1;
                 }
                 if cost > bound {
+                    continue;
+                }
+                let mut ycost = r.yield_deviations_before(i);
+                if d.after_yield {
+                    ycost += 1;
+                }
+                if ycost > bound.max(1) {
                     continue;
                 }
                 for alt in 1..d.enabled.len() {
@@ -824,6 +853,11 @@ impl<S: SchedSpec> Subject for Sched<S> {
         };
         let prefix: Vec<usize> = ch.iter().map(|x| x.as_u64().unwrap_or(0) as usize).collect();
         let r = run_one(&self.0, &prefix);
+        if std::env::var("ZV_DEBUG").is_ok() {
+            eprintln!("events: {:?}", r.events.iter().map(|e| (e.tid, e.site, e.a, e.b)).collect::<Vec<_>>());
+            eprintln!("decisions: {:?}", r.trace.iter().map(|d| (d.enabled.clone(), d.chosen)).collect::<Vec<_>>());
+            eprintln!("stuck={} failure={:?}", r.stuck, r.failure);
+        }
         if let Some(m) = &r.machinery {
             return Verdict::Unreplayable(m.clone());
         }
